@@ -54,12 +54,24 @@ def shipped_strategies():
     return {"default_fnv_1a": H.default_fnv_1a, "default_md5": H.default_md5, "default_sha256": H.default_sha256}
 
 
+def _salted_int(key, idx=0):
+    # a pure function that USES its index argument (a per-round salt)
+    return int(hashlib.sha256(to_bytes(key) + b"|%d" % idx).hexdigest()[:16], 16)
+
+
+def _salted_bytes(key, idx=0):
+    return hashlib.blake2b(to_bytes(key), digest_size=16, salt=b"%d" % idx).digest()
+
+
 def decorator_strategies():
     from probables import hashes as H
 
     return {
         "decorated_int_sha512": H.hash_with_depth_int(_sha512_int),
         "decorated_bytes_blake2b": H.hash_with_depth_bytes(_blake_bytes),
+        "decorated_int_salted": H.hash_with_depth_int(_salted_int),
+        "decorated_bytes_salted": H.hash_with_depth_bytes(_salted_bytes),
+        "decorated_int_fnv": H.hash_with_depth_int(H.fnv_1a),
     }
 
 
